@@ -99,6 +99,8 @@ func init() {
 				{Scenario: "c12_afterrebalance", Params: mustJSON(AfterRebParams{CloseFault: true}), Bound: 0, Shards: 8, Note: "a close-stream request of the rebalance fails (lost reply / dead connection with a transient stream end): the rebalance does not terminate the client"},
 				{Scenario: "c02_sessions", Params: mustJSON(SessionsParams{ReadOnly: true}), Bound: 0, Shards: 2, Note: "re-open after a rebalance resumes from the checkpoints stored NOW (read-only mode: they were advanced by their owners since the process started), for vBuckets that stay in the range and for gained ones"},
 				{Scenario: "c02_sessions", Params: mustJSON(SessionsParams{}), Bound: 0, Shards: 2, Note: "the same with this member's own saves between the rebalances"},
+				{Scenario: "c16_race", Params: mustJSON(ScrapeRaceParams{Against: "rebalance"}), Bound: 2, Shards: 4, Note: "a metrics scrape overlapping the rebalance (prometheus runs Collect on goroutines without recover): it never terminates the client"},
+				{Scenario: "c16_race", Params: mustJSON(ScrapeRaceParams{Against: "rebalance", Inject: true}), Bound: 1, Shards: 8, Note: "the same with the scrape started at every scheduling point of the rebalance"},
 				{Scenario: "c05_windowcommit", Params: mustJSON(struct{}{}), Bound: 0, Note: "a Commit() inside the rebalance window (couchbase and file metadata, with / without a late acknowledgement): the re-open that ends the rebalance resumes from the stored checkpoints and does not terminate the client"},
 				{Scenario: "c10_cb", Params: mustJSON(CBParams{Initial: 3, Event: "replace", Perms: 1}), Bound: 0, Shards: 4, Note: "couchbase membership: a replaced peer changes the set of instances but not this member's number or the group size - nothing is announced, the stream is not interrupted"},
 				{Scenario: "c10_register", Params: mustJSON(struct{}{}), Bound: 0, Note: "leader-assigned membership: a numbering that repeats the one in effect (e.g. from the new leader after a fail-over) is not announced, so it causes no interruption"},
